@@ -3,6 +3,8 @@ import Model.Base.Proto
 import Model.Fmt.Reader
 import Model.Fmt.Files
 import Model.Spec.Format
+import Model.Fmt.ReaderClosed
+import Model.Fmt.ReaderLimit
 
 /-
 C02 driver.
@@ -17,6 +19,10 @@ obs  <id> R f=<hex> l=<n> name=<hex> iters=<int> vals=<bits:unit:origbits:origun
 obs  <id> E f=<hex> l=<n> msg=<hex>
 obs  <id> U f=<hex> l=<n> unit=<hex> key=<hex> orig=<hex> val=<hex>
 obs  <id> end n=<records> failed=<hex|-> units=<sorted unit:key:orig:val:file:line,…>
+obs  <id> closed same          second pass: the CLOSED model (Fmt.closedOracles: Num.atoi, Num.readerAtof,
+                               Unit.Tidy.tidy — the nums=/tidy= tables are not consulted) delivered the same
+                               records and unit metadata as the table-driven pass; otherwise
+obs  <id> closed DIFF at=<i> table=<record> closed=<record>
 spec <id> …            the same lines without cfg= (configuration only as a map), from Spec.Format;
                        the end line carries clone=ok and, for kind=f, distinct=1
 -/
@@ -140,17 +146,40 @@ def optHex : Option Bytes → String
   | some b => if b.isEmpty then "00empty" else b.toHex
   | none => "-"
 
+/-- second pass: compare the closed model's stream with the table-driven one -/
+def closedLine (id : String) (tbl closed : List Rec) (tu cu : UnitMap) : String :=
+  if tbl == closed && tu == cu then s!"obs {id} closed same"
+  else
+    let rec firstDiff (i : Nat) : List Rec → List Rec → String
+      | a :: as, b :: bs => if a == b then firstDiff (i + 1) as bs else s!"at={i} table=[{showRec a}] closed=[{showRec b}]"
+      | a :: _, [] => s!"at={i} table=[{showRec a}] closed=[]"
+      | [], b :: _ => s!"at={i} table=[] closed=[{showRec b}]"
+      | [], [] => s!"at=units table={showUnits tu} closed={showUnits cu}"
+    s!"obs {id} closed DIFF {firstDiff 0 tbl closed}"
+
+def errField (open_ ioErr : Option Bytes) : String :=
+  match ioErr, open_ with
+  | some m, _ => "ERR:" ++ m.toHex
+  | none, some b => if b.isEmpty then "00empty" else b.toHex
+  | none, none => "-"
+
 def handleReader (l : Line) (O : Oracles) : IO Unit := do
   let fn := (l.bytes? "fn").getD []
   let text := (l.bytes? "text").getD []
-  let (recs, r) := drain O (Reader.new text fn) #[]
+  let lim := splitLinesLim text
+  let (recs, r) := drain O { (Reader.new text fn) with lines := lim.1 } #[]
+  let ioErr := (readAllLim O fn text).2
   for rec in recs do
     IO.println s!"obs {l.id} {showRec rec}"
-  IO.println s!"obs {l.id} end n={recs.size} failed=- units={showUnits r.st.units}"
-  let (srecs, sunits) := Spec.Format.read O fn [] [] text
+  IO.println s!"obs {l.id} end n={recs.size} failed={errField none ioErr} units={showUnits r.st.units}"
+  let CO := closedOracles O.uc
+  let cst := RState.zero.reset fn []
+  IO.println (closedLine l.id recs.toList (readLines CO cst lim.1) r.st.units
+    (finalState CO cst lim.1).units)
+  let (srecs, sunits, serr) := Spec.Format.readLimited O fn [] [] text
   for rec in srecs do
     IO.println s!"spec {l.id} {showSRec rec}"
-  IO.println s!"spec {l.id} end n={srecs.length} failed=- units={showUnits sunits} clone=ok"
+  IO.println s!"spec {l.id} end n={srecs.length} failed={errField none serr} units={showUnits sunits} clone=ok"
 
 /-- N4: the label generated for an occurrence of a duplicated unlabelled path `q` (`q#n`) is also
 the label of another entry (a path literally named `q#n`, or a user label `q#n=…`). -/
@@ -187,17 +216,19 @@ def handleFiles (l : Line) (O : Oracles) : IO Unit := do
   let names := (l.hexList? "fsn").getD []
   let contents := (l.hexList? "fsc").getD []
   let fs : FS := { files := names.zip contents, stdin := (l.bytes? "in").getD [] }
-  let out := Files.run O fs paths allowStdin allowLabels
+  let out := Files.runLim O fs paths allowStdin allowLabels
   for rec in out.recs do
     IO.println s!"obs {l.id} {showRec rec}"
-  IO.println s!"obs {l.id} end n={out.recs.length} failed={optHex out.failed} units={showUnits out.st.units}"
-  let sp := Spec.Format.readFiles O fs [] fs.stdin (Spec.Format.inputs paths allowStdin allowLabels)
+  IO.println s!"obs {l.id} end n={out.recs.length} failed={errField out.failed out.ioErr} units={showUnits out.st.units}"
+  let cout := Files.runLim (closedOracles O.uc) fs paths allowStdin allowLabels
+  IO.println (closedLine l.id out.recs cout.recs out.st.units cout.st.units)
+  let sp := Spec.Format.readFilesLimited O fs [] fs.stdin (Spec.Format.inputs paths allowStdin allowLabels)
   for rec in sp.recs do
     IO.println s!"spec {l.id} {showSRec rec}"
   -- known class N4: label clash with a literal `q#n` path or user label
   let kf := if isN4 paths allowLabels then " kf=N4" else ""
   let used := ((idealLabels paths allowStdin allowLabels).zip sp.results).filter (fun p => p.2 > 0)
-  IO.println s!"spec {l.id} end n={sp.recs.length} failed={optHex sp.failed} units={showUnits sp.units} clone=ok distinct={(used.map (·.1)).eraseDups.length}{kf}"
+  IO.println s!"spec {l.id} end n={sp.recs.length} failed={errField sp.failed sp.ioErr} units={showUnits sp.units} clone=ok distinct={(used.map (·.1)).eraseDups.length}{kf}"
 
 def handle (l : Line) : IO Unit := do
   if l.kind != "case" then return
